@@ -125,6 +125,17 @@ def r2_nesting(ctx):
                 srcs.append('parent' if reads_parent else ('own' if l2 & cur else '?'))
             order_ok = srcs == ['parent', 'own']
             detail = 'format arguments in order %s' % srcs
+        if not arr:
+            # the same concatenation written in place: `parent.push_str(own)` on the parent's (owned) prefix, which is then the payload
+            for pb in sorted(some_blocks):
+                t = b.term(pb)
+                if t and t['k'] == 'call' and callee(t) == 'alloc::string::String::push_str':
+                    r, a = op_place(t['args'][0]), op_place(t['args'][1])
+                    _, lr = backward_slice(b, r['l'], defs, through_calls=False) if r else ([], set())
+                    _, la = backward_slice(b, a['l'], defs) if a else ([], set())
+                    if (lr & pp) and (la & cur) and not (la & pp) and (locs & lr):
+                        order_ok = True
+                        detail = 'parent.push_str(own)'
         uncond = uncond and not maps
         detail += '; Option combinators on the way: %s' % (maps or 'none')
     ctx.ob('C07.R2', 'prefix|parent-some', bool(somes) and uncond and order_ok, b.loc(sb), 'with a parent prefix the nested prefix is Some(format(..)) unconditionally: %s; %s' % (bool(somes) and uncond, detail))
@@ -159,6 +170,14 @@ def r2_nesting(ctx):
                             out.add(q['l'])
             return out
         okd = bool(srcs_in(armsd.get('Some', ())) & cd) and bool(srcs_in(armsd.get('None', ())) & pd)
+    else:
+        # `own.or(parent)`: the same choice, spelled with the combinator
+        for bb, t in b.calls():
+            if callee(t) == 'core::option::Option::or' and len(t['args']) == 2:
+                r, a = op_place(t['args'][0]), op_place(t['args'][1])
+                _, lr = backward_slice(b, r['l'], defs, through_calls=False) if r else ([], set())
+                _, la = backward_slice(b, a['l'], defs, through_calls=False) if a else ([], set())
+                okd = okd or (bool(lr & cd) and bool(la & pd) and not (lr & pd) and not (la & cd))
     ctx.ob('C07.R2', 'domain|own-else-parent', okd, b.loc(swd[0][0]) if swd else b.loc(), 'Some(own) => own, None => parent guard')
 
 
@@ -441,8 +460,16 @@ def r10_any_guard_only_on_request(ctx):
 
         def domain_switch(self, interp, path, body, bb, term, enum):
             src = term.get('src') or {}
-            if enum == 'core::option::Option' and 'f:method' in (src.get('p') or []) and body is b:
-                return ['None']             # the route has no explicit method list
+            if enum == 'core::option::Option' and body is b:
+                direct = 'f:method' in (src.get('p') or [])
+                if not direct and src.get('l') is not None:
+                    sl, _ = backward_slice(body, src['l'], defs, through_calls=False)
+                    for _, _, n in sl:
+                        rv = n.get('rv')
+                        q = rv.get('pl') if rv and rv['k'] == 'ref' else (op_place(rv['op']) if rv and rv['k'] == 'use' else None)
+                        direct = direct or 'f:method' in ((q or {}).get('p') or [])
+                if direct:
+                    return ['None']             # the route has no explicit method list
             return None
 
         def domain_assign(self, interp, path, body, bb, st):
